@@ -114,7 +114,7 @@ func c11Parties(e *env) {
 				"exp": time.Now().Unix() + 7200, "digest": c11Digest(req, body)})
 		default: // userinfo
 			user := strings.TrimPrefix(req.Header.Get("Authorization"), "Bearer ")
-			json.NewEncoder(w).Encode(map[string]any{"sub": user, "role": map[string]string{"alice": "user", "bob": "admin"}[user], "digest": c11Digest(req, body),
+			json.NewEncoder(w).Encode(map[string]any{"sub": user, "active": user != "bob", "role": map[string]string{"alice": "user", "bob": "admin"}[user], "digest": c11Digest(req, body),
 				"groups": map[string]any{"g1": "x", "g2": "y", "g3": user}})
 		}
 	})
@@ -395,10 +395,10 @@ func c11Build(s *simcore.Source) c11Scenario {
 			"  finalizers:\n    - id: echo\n      type: header\n      config:\n        headers:\n          X-User: \"{{ .Subject.ID }}\"\n          X-Digest: \"{{ .Subject.Attributes.digest }}\"\n"
 		step := "    - authenticator: mut\n    - finalizer: echo"
 		step2 := step
-		if tw := s.Draw(5, "twin-mechanism"); tw == 2 || tw == 3 {
+		if tw := s.Draw(6, "twin-mechanism"); tw == 2 || tw == 3 || tw == 4 {
 			// a second catalogue entry on the same endpoint that differs only in the value of one header (spelled in lower
 			// case, as yaml authors do), or only in the payload sent to the endpoint
-			sc.twin = map[int]string{2: "x-tenant", 3: "payload"}[tw]
+			sc.twin = map[int]string{2: "x-tenant", 3: "payload", 4: "session-lifespan"}[tw]
 			twinOf := func(id, tenant string) string {
 				h2 := map[string]string{}
 				for k, v := range hdrs {
@@ -406,11 +406,15 @@ func c11Build(s *simcore.Source) c11Scenario {
 				}
 				k2 := append([]string{}, keys...)
 				payload := ""
-				if sc.twin == "x-tenant" {
+				switch {
+				case sc.twin == "x-tenant":
 					h2["x-tenant"] = tenant
 					k2 = append(k2, "x-tenant")
-				} else {
+				case sc.twin == "payload":
 					payload = "        payload: \"realm=" + tenant + "\"\n"
+				case tenant == "b":
+					// only the second one looks at the state of the session (bob's is not active)
+					payload = "        session_lifespan:\n          active: active\n"
 				}
 				return "    - id: " + id + "\n      type: generic\n      config:\n        identity_info_endpoint:\n          url: http://idp/userinfo\n          method: GET\n          headers:\n" +
 					yamlMap("            ", k2, h2) + payload +
